@@ -365,6 +365,151 @@ fn eval_toml(
     Ok(eng.evaluate(&peer, random) == RuleEvaluation::Allow)
 }
 
+
+/// Patterns of the single-rule sweep: every prefix of 1..=3 bytes and every mask of 0..=3 bytes over
+/// small byte alphabets, all length combinations (mask shorter than, as long as, longer than the
+/// prefix; empty mask; zero bytes at any position of the mask).
+fn patterns() -> Vec<String> {
+    const PB: [&str; 3] = ["00", "aa", "03"];
+    const MB: [&str; 3] = ["00", "ff", "f0"];
+    fn words(alpha: &[&str; 3], max: usize) -> Vec<String> {
+        let mut all = vec![String::new()];
+        let mut last = vec![String::new()];
+        for _ in 0..max {
+            let mut next = Vec::new();
+            for w in &last {
+                for a in alpha {
+                    next.push(format!("{w}{a}"));
+                }
+            }
+            all.extend(next.iter().cloned());
+            last = next;
+        }
+        all
+    }
+    let mut v = Vec::new();
+    for pre in words(&PB, 3) {
+        if pre.is_empty() {
+            continue;
+        }
+        v.push(pre.clone());
+        for mask in words(&MB, 4) {
+            v.push(format!("{pre}/{mask}"));
+        }
+    }
+    v
+}
+
+fn pattern_randoms() -> Vec<Option<Vec<u8>>> {
+    let mut v: Vec<Option<Vec<u8>>> = vec![None, Some(vec![]), Some(vec![0xaa]), Some(vec![0xaa, 0x00])];
+    for head in [[0xaa, 0xaa, 0xaa], [0xaa, 0x00, 0x03], [0xaa, 0x55, 0x03], [0xa5, 0xaa, 0x0f], [0x00, 0xaa, 0x00], [0x0f, 0x0a, 0xaa], [0xab, 0x00, 0x00]] {
+        let mut r = head.to_vec();
+        r.extend((3..32).map(|i| i as u8));
+        v.push(Some(r));
+    }
+    v
+}
+
+/// One pattern in a two-rule list (`pattern -> first`, `anything -> the opposite`), through the
+/// three entry points. A panic is a violation whatever the documentation leaves open.
+fn pattern_case(dir: &std::path::Path, i: u64, pattern: &str, deny_first: bool, entry: usize, random: &Option<Vec<u8>>) -> Result<Cow<'static, str>, Violation> {
+    let peer: IpAddr = "10.1.2.3".parse().unwrap();
+    let rules = vec![
+        Rule { cidr: None, client_random_prefix: Some(pattern.to_string()), action: if deny_first { RuleAction::Deny } else { RuleAction::Allow } },
+        Rule { cidr: None, client_random_prefix: None, action: if deny_first { RuleAction::Allow } else { RuleAction::Deny } },
+    ];
+    let entry_name = ["engine", "core", "toml"][entry];
+    let case = json!({"kind": "pattern", "pattern": pattern, "deny_first": deny_first, "entry": entry, "random": random.as_ref().map(hex::encode)});
+    let r = random.as_deref();
+    let got = super::guarded(|| -> Result<bool, String> {
+        match entry {
+            0 => Ok(RulesEngine::from_config(RulesConfig { rule: rules.clone() }).evaluate(&peer, r) == RuleEvaluation::Allow),
+            1 => {
+                let cfg = Cfg { rules: Some(RulesConfig { rule: rules.clone() }), ..Cfg::default() };
+                let w = make_world(&cfg)?;
+                Ok(vh::evaluate_connection_rules(&w.ctx, Some(peer), r).is_ok())
+            }
+            _ => {
+                let text = format!(
+                    "[[rule]]\nclient_random_prefix = {}\naction = \"{}\"\n\n[[rule]]\naction = \"{}\"\n",
+                    toml_quote(pattern),
+                    if deny_first { "deny" } else { "allow" },
+                    if deny_first { "allow" } else { "deny" }
+                );
+                let path = dir.join(format!("pattern-{i}.toml"));
+                std::fs::write(&path, text).map_err(|e| e.to_string())?;
+                let settings_text = format!("listen_address = \"127.0.0.1:1\"\nrules_file = {}\n[listen_protocols.http1]\n", toml_quote(&path.to_string_lossy()));
+                let settings: Result<trusttunnel::settings::Settings, _> = toml::from_str(&settings_text);
+                let _ = std::fs::remove_file(&path);
+                let settings = settings.map_err(|e| format!("settings: {e}"))?;
+                let eng = settings.get_rules_engine().as_ref().ok_or_else(|| "no rules engine".to_string())?;
+                Ok(eng.evaluate(&peer, r) == RuleEvaluation::Allow)
+            }
+        }
+    });
+    let got = match got {
+        Err(panic) => {
+            return Err(Violation::new(
+                format!("C04:pattern:panic:{entry_name}:{}", pattern_kind(pattern)),
+                format!("evaluating client_random_prefix {pattern:?} against random {:?} panicked: {panic}", random.as_ref().map(hex::encode)),
+                case,
+            ))
+        }
+        Ok(Err(e)) => return Err(Violation::new("C04:machinery:pattern", e, case)),
+        Ok(Ok(g)) => g,
+    };
+    let want = if random.is_none() {
+        Want::Deny // fail closed
+    } else {
+        match ref_rule(None, Some(pattern), peer, r) {
+            Tri::Match => if deny_first { Want::Deny } else { Want::Allow },
+            Tri::NoMatch => if deny_first { Want::Allow } else { Want::Deny },
+            Tri::Undefined => Want::DontCare,
+        }
+    };
+    let ok = match want {
+        Want::Allow => got,
+        Want::Deny => !got,
+        Want::DontCare => true,
+    };
+    if ok {
+        return Ok(Cow::Owned(format!("{}:{want:?}:{}", pattern_kind(pattern), if got { "allow" } else { "deny" })));
+    }
+    Err(Violation::new(
+        format!("C04:pattern:want-{want:?}:{entry_name}:{}", pattern_kind(pattern)),
+        format!("rule list [{pattern:?} -> {}, anything -> the opposite], random {:?}: documented verdict {want:?}, endpoint {}", if deny_first { "deny" } else { "allow" }, random.as_ref().map(hex::encode), if got { "allows" } else { "denies" }),
+        case,
+    ))
+}
+
+fn pattern_kind(pattern: &str) -> String {
+    match pattern.split_once('/') {
+        None => "prefix".to_string(),
+        Some((pre, mask)) => {
+            let (p, m) = (pre.len() / 2, mask.len() / 2);
+            let len = match m.cmp(&p) {
+                _ if m == 0 => "empty-mask",
+                std::cmp::Ordering::Less => "mask-shorter",
+                std::cmp::Ordering::Equal => "mask-same-length",
+                std::cmp::Ordering::Greater => "mask-longer",
+            };
+            let bytes: Vec<&str> = (0..m).map(|i| &mask[2 * i..2 * i + 2]).collect();
+            let zeros = if m == 0 || !bytes.contains(&"00") {
+                "no-zero-byte"
+            } else if bytes.iter().all(|b| *b == "00") {
+                "all-zero"
+            } else if bytes[0] == "00" {
+                "leading-zero-byte"
+            } else if bytes.iter().skip_while(|b| **b != "00").any(|b| *b != "00") {
+                "inner-zero-byte"
+            } else {
+                "trailing-zero-byte"
+            };
+            format!("{len}:{zeros}")
+        }
+    }
+}
+
 pub fn run(tier: Tier) -> i32 {
     let mut rep = Report::new("C04", tier, "exploration");
     let workers = rt::workers();
@@ -460,6 +605,29 @@ pub fn run(tier: Tier) -> i32 {
             }
         }
     }
+
+    // (d) single-rule pattern sweep: every prefix/mask shape, through all three entry points
+    {
+        let pats = patterns();
+        let prnds = pattern_randoms();
+        let entries: u64 = 3;
+        let total = pats.len() as u64 * prnds.len() as u64 * 2 * entries;
+        let r = sweep_dyn(total, 512, Duration::from_secs(1200), workers, |i| {
+            let entry = (i % entries) as usize;
+            let j = i / entries;
+            let deny_first = j % 2 == 1;
+            let j = j / 2;
+            let random = &prnds[(j % prnds.len() as u64) as usize];
+            let pattern = &pats[(j / prnds.len() as u64) as usize];
+            pattern_case(&dir, i, pattern, deny_first, entry, random)
+        });
+        rep.add("evaluations", r.evaluations);
+        complete &= r.completed;
+        classes.extend(r.classes.keys().map(|k| format!("pattern:{k}")));
+        rep.violations(r.violations);
+        rep.sub.push(json!({"sub": "single-rule-patterns", "patterns": pats.len(), "randoms": prnds.len(), "evaluations": r.evaluations, "completed": r.completed,
+            "rule": "prefix of 1..=3 bytes over {00,aa,03} x (no mask | mask of 0..=4 bytes over {00,ff,f0}), as the first of two rules (allow-then-deny-all and deny-then-allow-all), x 11 randoms (absent, empty, 1 byte, 2 bytes, 7 full ones), through RulesEngine::evaluate, Core::evaluate_connection_rules and the rules_file path; a panic is a violation for every pattern, the verdict is compared where the documentation defines it (mask as long as the prefix, random at least as long)"}));
+    }
     let _ = std::fs::remove_dir_all(&dir);
 
     rep.cov("distinct_nontrivial", classes.len() as u64);
@@ -477,6 +645,11 @@ pub fn run(tier: Tier) -> i32 {
 
 pub fn replay(case: &serde_json::Value) -> Result<(), Violation> {
     let bad = || Violation::new("C04:machinery", "bad replay file", json!({}));
+    if case["kind"] == "pattern" {
+        let dir = std::env::temp_dir();
+        let random: Option<Vec<u8>> = case["random"].as_str().map(|s| hex::decode(s).unwrap_or_default());
+        return pattern_case(&dir, std::process::id() as u64, case["pattern"].as_str().ok_or_else(bad)?, case["deny_first"].as_bool().unwrap_or(false), case["entry"].as_u64().unwrap_or(0) as usize, &random).map(|_| ());
+    }
     let rules: Vec<RuleSpec> = case["rules"]
         .as_array()
         .ok_or_else(bad)?
